@@ -11,7 +11,7 @@ regen() {
     t=$(mktemp -d /tmp/regen.XXXXXX)
     (cd $t && LD_LIBRARY_PATH=$W/_b/lib $W/_b/bin/exp2cxx "$exp" > /dev/null 2>&1)
     n=0
-    for f in $t/*; do b=$(basename $f); if ! cmp -s $f $sdir/$b; then cp $f $sdir/$b; n=$((n+1)); fi; done
+    for b in $(cd $t && find . -type f | sed 's|^\./||'); do if ! cmp -s $t/$b $sdir/$b; then mkdir -p $(dirname $sdir/$b); cp $t/$b $sdir/$b; n=$((n+1)); echo "    changed: $b"; fi; done
     echo "  $(basename $sdir): $n generated files changed"
     rm -rf $t
   done
